@@ -207,6 +207,14 @@ def rand_shapes(ctx, rng, nrng, n):
         def bshape():
             return tuple(1 if rng.random() < 0.3 else s for s in shape)
         s1, s2 = bshape(), bshape()
+        if nd >= 2 and rng.random() < 0.3:
+            # operands of different rank: numpy broadcasting aligns trailing axes
+            k = rng.randint(1, nd - 1)
+            if rng.random() < 0.5:
+                s2 = s2[k:]
+            else:
+                s1 = s1[k:]
+            ctx.count('rank_mismatch_broadcasts')
         alpha_mv = np.array(rng.choice(SUB_ALPHABETS) if rng.random() < 0.4 else list(range(8)), dtype=np.uint8)
         x1 = alpha_mv[nrng.integers(0, len(alpha_mv), size=s1)]
         x2 = alpha_mv[nrng.integers(0, len(alpha_mv), size=s2)]
